@@ -3,7 +3,7 @@ inside structs / arrays / typed maps, as strings holding paths, through
 sub-pipeline boundaries, to several consumers, across mapped calls, with
 volatile / strict / retain annotations."""
 from mro import (arrx, call, collect, const, echo, length, lit, objx, pipeline, program, ref, self_, split,
-                 stage, struct, INST, CI, FILE, FILES, FMAP, FSTR, FSTRUCT, FDIR, FMSTRUCT, FASTRUCT)
+                 stage, struct, INST, CI, FILE, FILES, FMAP, FSTR, FSTRUCT, FDIR, FMSTRUCT, FASTRUCT, FILEODD)
 
 
 def P_files(name, vol=None, retain=None, outs="file f, txt g, int n", rules=None):
@@ -154,6 +154,22 @@ def catalogue():
                                [call("GEN", binds={"x": self_("x")}),
                                 call("P", binds={"x": split(ref("GEN", "xs"))}, mode="array", vol=True)],
                                {"fs": ref("P", "f")})], "TOP", {"x": 1}, filetypes=ft))
+    # 14b. a mapped volatile producer of which some forks return null for the file a consumer
+    #      binds (over a run-time array, and over an array given in the invocation)
+    P.append(program("vf_map_null", [],
+                     [stage("GEN", "int x", "int[] xs", {"xs": const([1, 2, 3])}),
+                      P_files("P", rules={"f": FILEODD("x"), "g": FILE, "n": const(1)}), C_file("CA", "file[]")],
+                     [pipeline("TOP", "int x", "string a",
+                               [call("GEN", binds={"x": self_("x")}),
+                                call("P", binds={"x": split(ref("GEN", "xs"))}, mode="array", vol=True),
+                                call("CA", binds={"f": ref("P", "f")})],
+                               {"a": ref("CA", "r")})], "TOP", {"x": 1}, filetypes=ft))
+    P.append(program("vf_map_null_static", [],
+                     [P_files("P", rules={"f": FILEODD("x"), "g": FILE, "n": const(1)}), C_file("CA", "file[]")],
+                     [pipeline("TOP", "int[] xs", "string a",
+                               [call("P", binds={"x": split(self_("xs"))}, mode="array", vol=True),
+                                call("CA", binds={"f": ref("P", "f")})],
+                               {"a": ref("CA", "r")})], "TOP", {"xs": [2, 1, 3]}, filetypes=ft))
     # 15. a directory output and a file output released at different times (strict-volatile producer)
     P.append(program("vf_dir", [],
                      [stage("P", "int x", "path d, file f", {"d": FDIR, "f": FILE}, volatile="strict"),
